@@ -891,4 +891,216 @@ Proof.
       intros z. change (sizes_ s') with (sizes_ s). rewrite Tb. f_equal. apply map_ext_in. intros p Hp. unfold csize. rewrite Rs; [reflexivity|apply Tc, Hp].
 Qed.
 
+(* ---- frames for the totals ---- *)
+Definition same_tot_fields (s s' : tstate) : Prop :=
+  trk_flops s' = trk_flops s /\ trk_write s' = trk_write s /\ trk_size s' = trk_size s /\
+  flops_ s' = flops_ s /\ write_ s' = write_ s /\ sizes_ s' = sizes_ s /\ sizes_max s' = sizes_max s.
+Lemma tot_flops_frame keys s s' : trk_flops s' = trk_flops s -> flops_ s' = flops_ s ->
+  (forall p, In p keys -> rd i_flops s' p = rd i_flops s p) -> tot_flops keys s -> tot_flops keys s'.
+Proof.
+  intros E1 E2 R T. unfold tot_flops. rewrite E1, E2. intros Ht. destruct (T Ht) as [Ta Tb].
+  split; [|intros p Hp; rewrite R by exact Hp; apply Tb, Hp].
+  rewrite Ta. f_equal. apply map_ext_in. intros p Hp. unfold cflops. rewrite R by exact Hp. reflexivity.
+Qed.
+Lemma tot_write_frame keys s s' : trk_write s' = trk_write s -> write_ s' = write_ s ->
+  (forall p, In p keys -> rd i_size s' p = rd i_size s p) -> tot_write keys s -> tot_write keys s'.
+Proof.
+  intros E1 E2 R T. unfold tot_write. rewrite E1, E2. intros Ht. destruct (T Ht) as [Ta Tb].
+  split; [|intros p Hp; rewrite R by exact Hp; apply Tb, Hp].
+  rewrite Ta. f_equal. apply map_ext_in. intros p Hp. unfold csize. rewrite R by exact Hp. reflexivity.
+Qed.
+Lemma tot_size_frame keys s s' : trk_size s' = trk_size s -> sizes_ s' = sizes_ s -> sizes_max s' = sizes_max s ->
+  (forall p, In p keys -> rd i_size s' p = rd i_size s p) -> tot_size keys s -> tot_size keys s'.
+Proof.
+  intros E1 E2 E3 R T. unfold tot_size, sizes_mc. rewrite E1, E2, E3. intros Ht. destruct (T Ht) as (Ta & Tb & Tc).
+  split; [exact Ta|]. split; [|intros p Hp; rewrite R by exact Hp; apply Tc, Hp].
+  intros z. rewrite Tb. f_equal. apply map_ext_in. intros p Hp. unfold csize. rewrite R by exact Hp. reflexivity.
+Qed.
+
+Lemma leaf_not_key s nd : InvS s -> length nd = 1 -> ~ In nd (nkeys (children s)).
+Proof.
+  intros (Hc&_) E1 Hin. apply nget_in_keys in Hin. destruct (nget nd (children s)) as [[l r]|] eqn:E; [|congruence].
+  apply (leaf_not_parent _ nd l r Hc E E1).
+Qed.
+
+(* ---- _remove_node ---- *)
+Lemma InvS_children_del nd s i' :
+  InvS s -> (length nd = N -> i' = Some noinfo) ->
+  forall s', children s' = ndel nd (children s) -> sliced s' = sliced s -> mult s' = mult s ->
+  info s' = match i' with Some x => nset nd x (info s) | None => ndel nd (info s) end ->
+  nget nd (info s) <> None -> (i' = None \/ i' = Some noinfo) ->
+  InvS s'.
+Proof.
+  intros (H1&H2&H3&H5) _ s' Ech Esl Em Ei Hk Hi'. destruct H1 as [Hnd Hc].
+  unfold InvS. rewrite Ech, Esl, Em. split; [|split; [|split; [|exact H5]]].
+  - split; [apply NoDup_nkeys_ndel, Hnd|]. intros p l r Hp. destruct (node_eq_dec p nd) as [->|Hn].
+    + rewrite nget_ndel_same in Hp by exact Hnd. discriminate.
+    + rewrite nget_ndel_other in Hp by exact Hn. apply Hc, Hp.
+  - rewrite Ei. destruct i'; [apply NoDup_nkeys_nset, H2|apply NoDup_nkeys_ndel, H2].
+  - intros nd' j Hj. rewrite Ei in Hj.
+    assert (Hcase : (nd' = nd /\ j = noinfo) \/ (nd' <> nd /\ nget nd' (info s) = Some j)).
+    { destruct (node_eq_dec nd' nd) as [->|Hn].
+      - destruct Hi' as [->| ->].
+        + rewrite nget_ndel_same in Hj by exact H2. discriminate.
+        + rewrite nget_nset_same in Hj. injection Hj as <-. left. auto.
+      - right. split; [exact Hn|]. destruct i'; [rewrite nget_nset_other in Hj by exact Hn|rewrite nget_ndel_other in Hj by exact Hn]; exact Hj. }
+    destruct Hcase as [[-> ->]|[Hn Hj']].
+    + destruct (nget nd (info s)) as [i0|] eqn:E0; [|congruence]. split; [apply (H3 nd i0 E0)|apply node_inv_noinfo].
+    + destruct (H3 nd' j Hj') as [G (A&B&C&D)]. split; [exact G|]. unfold node_inv. repeat split; auto.
+      * intros inv Hinv. destruct (B inv Hinv) as [Hl|(l & r & E & Hok)]; [left; exact Hl|right].
+        exists l, r. split; [rewrite nget_ndel_other by exact Hn; exact E|exact Hok].
+      * intros z Hz. destruct (D z Hz) as [Hl|(l & r & E & Hok)]; [left; exact Hl|right].
+        exists l, r. split; [rewrite nget_ndel_other by exact Hn; exact E|exact Hok].
+Qed.
+
+Lemma stage_size nd s : NoDup (nkeys (children s)) -> In nd (nkeys (children s)) ->
+  tot_size (nkeys (children s)) s ->
+  let s1 := (if trk_size s then let '(sa, sz) := g_size n s nd in set_sizes (mc_discard sz (sizes_mc sa)) sa else s) in
+  info s1 = info s /\ children s1 = children s /\ sliced s1 = sliced s /\ mult s1 = mult s /\
+  trk_flops s1 = trk_flops s /\ trk_write s1 = trk_write s /\ trk_size s1 = trk_size s /\
+  flops_ s1 = flops_ s /\ write_ s1 = write_ s /\
+  tot_size (nkeys (ndel nd (children s))) s1.
+Proof.
+  intros ND Hin T. cbn zeta. destruct (trk_size s) eqn:Ts.
+  - destruct (T Ts) as (Ta & Tb & Tc). rewrite (g_size_hit s nd _ (csize_Some s nd (Tc nd Hin))).
+    do 9 (split; [first [reflexivity|exact Ts]|]). intros _. unfold sizes_mc. cbn [set_sizes sizes_ sizes_max].
+    change (mc_ok (mc_discard (csize s nd) (sizes_mc s)) /\
+            (forall z, cget0 z (fst (mc_discard (csize s nd) (sizes_mc s))) =
+                       count_occ Z.eq_dec (map (csize s) (nkeys (ndel nd (children s)))) z) /\
+            (forall p, In p (nkeys (ndel nd (children s))) -> rd i_size s p <> None)).
+    split; [apply (mc_discard_ok _ _ Ta)|]. split.
+    + intros z. rewrite (mc_discard_count _ z _ Ta). cbn [fst sizes_mc]. rewrite Tb, count_map_ndel by assumption. reflexivity.
+    + intros p Hp. apply (in_nkeys_ndel nd p _ ND) in Hp. apply Tc, Hp.
+  - do 9 (split; [first [reflexivity|exact Ts]|]). unfold tot_size. rewrite Ts. discriminate.
+Qed.
+Lemma stage_flops nd s : NoDup (nkeys (children s)) -> In nd (nkeys (children s)) ->
+  tot_flops (nkeys (children s)) s ->
+  let s1 := (if trk_flops s then let '(sa, fl) := g_flops n s nd in set_flops (flops_ sa - fl)%Z sa else s) in
+  info s1 = info s /\ children s1 = children s /\ sliced s1 = sliced s /\ mult s1 = mult s /\
+  trk_flops s1 = trk_flops s /\ trk_write s1 = trk_write s /\ trk_size s1 = trk_size s /\
+  write_ s1 = write_ s /\ sizes_ s1 = sizes_ s /\ sizes_max s1 = sizes_max s /\
+  tot_flops (nkeys (ndel nd (children s))) s1.
+Proof.
+  intros ND Hin T. cbn zeta. destruct (trk_flops s) eqn:Ts.
+  - destruct (T Ts) as (Ta & Tc). rewrite (g_flops_hit s nd _ (cflops_Some s nd (Tc nd Hin))).
+    do 10 (split; [first [reflexivity|exact Ts]|]). intros _.
+    change (flops_ s - cflops s nd = zsum (map (cflops s) (nkeys (ndel nd (children s)))) /\
+            (forall p, In p (nkeys (ndel nd (children s))) -> rd i_flops s p <> None))%Z. split.
+    + rewrite zsum_map_ndel by assumption. rewrite Ta. reflexivity.
+    + intros p Hp. apply (in_nkeys_ndel nd p _ ND) in Hp. apply Tc, Hp.
+  - do 10 (split; [first [reflexivity|exact Ts]|]). unfold tot_flops. rewrite Ts. discriminate.
+Qed.
+Lemma stage_write nd s : NoDup (nkeys (children s)) -> In nd (nkeys (children s)) ->
+  tot_write (nkeys (children s)) s ->
+  let s1 := (if trk_write s then let '(sa, sz) := g_size n s nd in set_write (write_ sa - sz)%Z sa else s) in
+  info s1 = info s /\ children s1 = children s /\ sliced s1 = sliced s /\ mult s1 = mult s /\
+  trk_flops s1 = trk_flops s /\ trk_write s1 = trk_write s /\ trk_size s1 = trk_size s /\
+  flops_ s1 = flops_ s /\ sizes_ s1 = sizes_ s /\ sizes_max s1 = sizes_max s /\
+  tot_write (nkeys (ndel nd (children s))) s1.
+Proof.
+  intros ND Hin T. cbn zeta. destruct (trk_write s) eqn:Ts.
+  - destruct (T Ts) as (Ta & Tc). rewrite (g_size_hit s nd _ (csize_Some s nd (Tc nd Hin))).
+    do 10 (split; [first [reflexivity|exact Ts]|]). intros _.
+    change (write_ s - csize s nd = zsum (map (csize s) (nkeys (ndel nd (children s)))) /\
+            (forall p, In p (nkeys (ndel nd (children s))) -> rd i_size s p <> None))%Z. split.
+    + rewrite zsum_map_ndel by assumption. rewrite Ta. reflexivity.
+    + intros p Hp. apply (in_nkeys_ndel nd p _ ND) in Hp. apply Tc, Hp.
+  - do 10 (split; [first [reflexivity|exact Ts]|]). unfold tot_write. rewrite Ts. discriminate.
+Qed.
+
+Lemma upd_info_fields nd f s :
+  children (upd_info nd f s) = children s /\ sliced (upd_info nd f s) = sliced s /\ mult (upd_info nd f s) = mult s /\
+  trk_flops (upd_info nd f s) = trk_flops s /\ trk_write (upd_info nd f s) = trk_write s /\
+  trk_size (upd_info nd f s) = trk_size s /\ flops_ (upd_info nd f s) = flops_ s /\ write_ (upd_info nd f s) = write_ s /\
+  sizes_ (upd_info nd f s) = sizes_ s /\ sizes_max (upd_info nd f s) = sizes_max s.
+Proof. unfold upd_info. destruct (nget nd (info s)); cbn; repeat split; reflexivity. Qed.
+
+Lemma totals_other_node s s' keys nd :
+  (forall p, p <> nd -> nget p (info s') = nget p (info s)) -> ~ In nd keys ->
+  trk_flops s' = trk_flops s -> trk_write s' = trk_write s -> trk_size s' = trk_size s ->
+  flops_ s' = flops_ s -> write_ s' = write_ s -> sizes_ s' = sizes_ s -> sizes_max s' = sizes_max s ->
+  tot_flops keys s /\ tot_write keys s /\ tot_size keys s ->
+  tot_flops keys s' /\ tot_write keys s' /\ tot_size keys s'.
+Proof.
+  intros Hget Hn E1 E2 E3 E4 E5 E6 E7 (T1 & T2 & T3).
+  assert (R : forall A (fld : ninfo -> option A) p, In p keys -> rd fld s' p = rd fld s p).
+  { intros A fld p Hp. unfold rd. rewrite Hget; [reflexivity|]. intros ->. contradiction. }
+  split; [|split].
+  - apply (tot_flops_frame keys s s'); auto.
+  - apply (tot_write_frame keys s s'); auto.
+  - apply (tot_size_frame keys s s'); auto.
+Qed.
+
+Theorem remove_node_leaf_inv nd s : InvC s -> length nd = 1 -> InvC (remove_node n nd s).
+Proof.
+  intros [HS HT] E1. unfold remove_node. rewrite E1. cbn [Nat.eqb].
+  apply (InvC_same (clear_info nd s)); [apply same_set_preproc|].
+  unfold clear_info. destruct (upd_info_fields nd (fun _ => noinfo) s) as (F1&F2&F3&F4&F5&F6&F7&F8&F9&F10).
+  split; [apply InvS_upd; [exact HS|intros; apply node_inv_noinfo]|].
+  apply totals_split. rewrite F1. apply totals_split in HT.
+  apply (totals_other_node s _ _ nd); auto.
+  - intros p Hp. unfold upd_info. destruct (nget nd (info s)); cbn; [apply nget_nset_other, Hp|reflexivity].
+  - apply leaf_not_key; assumption.
+Qed.
+
+Theorem remove_node_internal_inv nd s : InvC s -> In nd (nkeys (children s)) -> nget nd (info s) <> None ->
+  InvC (remove_node n nd s).
+Proof.
+  intros [HS HT] Hin Hk.
+  assert (E1 : length nd <> 1) by (intros E; apply (leaf_not_key s nd HS E Hin)).
+  assert (ND : NoDup (nkeys (children s))) by apply HS.
+  apply totals_split in HT. destruct HT as (T1 & T2 & T3).
+  unfold remove_node. destruct (Nat.eqb_spec (length nd) 1) as [|_]; [contradiction|].
+  set (s1 := if trk_size s then _ else s).
+  destruct (stage_size nd s ND Hin T3) as (A1&A2&A3&A4&A5&A6&A7&A8&A9&A10). fold s1 in A1, A2, A3, A4, A5, A6, A7, A8, A9, A10.
+  assert (R1 : forall A (fld : ninfo -> option A) p, rd fld s1 p = rd fld s p) by (intros; apply rd_same, A1).
+  assert (T1' : tot_flops (nkeys (children s1)) s1).
+  { rewrite A2. apply (tot_flops_frame _ s s1); auto. }
+  set (s2 := if trk_flops s1 then _ else s1).
+  assert (ND1 : NoDup (nkeys (children s1))) by (rewrite A2; exact ND).
+  assert (Hin1 : In nd (nkeys (children s1))) by (rewrite A2; exact Hin).
+  destruct (stage_flops nd s1 ND1 Hin1 T1') as (B1&B2&B3&B4&B5&B6&B7&B8&B9&B10&B11). fold s2 in B1, B2, B3, B4, B5, B6, B7, B8, B9, B10, B11.
+  assert (R2 : forall A (fld : ninfo -> option A) p, rd fld s2 p = rd fld s p) by (intros; rewrite <- R1; apply rd_same, B1).
+  assert (T2' : tot_write (nkeys (children s2)) s2).
+  { rewrite B2, A2. apply (tot_write_frame _ s s2); auto; congruence. }
+  set (s3 := if trk_write s2 then _ else s2).
+  assert (ND2 : NoDup (nkeys (children s2))) by (rewrite B2; exact ND1).
+  assert (Hin2 : In nd (nkeys (children s2))) by (rewrite B2; exact Hin1).
+  destruct (stage_write nd s2 ND2 Hin2 T2') as (C1&C2&C3&C4&C5&C6&C7&C8&C9&C10&C11). fold s3 in C1, C2, C3, C4, C5, C6, C7, C8, C9, C10, C11.
+  assert (Ech3 : children s3 = children s) by congruence.
+  assert (Einf3 : info s3 = info s) by congruence.
+  (* the three totals, over the keys that remain, in s3 *)
+  assert (TT : tot_flops (nkeys (ndel nd (children s))) s3 /\ tot_write (nkeys (ndel nd (children s))) s3
+               /\ tot_size (nkeys (ndel nd (children s))) s3).
+  { split; [|split].
+    - rewrite A2 in B11. apply (tot_flops_frame _ s2 s3); [exact C5|exact C8| |exact B11]. intros; apply rd_same, C1.
+    - rewrite B2, A2 in C11. exact C11.
+    - apply (tot_size_frame _ s1 s3); [congruence|congruence|congruence| |exact A10]. intros. unfold rd. rewrite Einf3, A1. reflexivity. }
+  unfold nmem. rewrite Ech3.
+  assert (Hch : nget nd (children s) <> None) by (apply nget_in_keys, Hin).
+  destruct (nget nd (children s)) as [lr|] eqn:Ech; [|congruence].
+  set (s4 := set_children (ndel nd (children s)) s3).
+  assert (Hnk : ~ In nd (nkeys (ndel nd (children s)))).
+  { intros H. apply (in_nkeys_ndel nd nd _ ND) in H. tauto. }
+  destruct (nget nd (info s)) as [i0|] eqn:Ei0; [|congruence].
+  destruct (Nat.eqb_spec (length nd) N) as [EN|EN].
+  - (* the root: its info is cleared *)
+    unfold clear_info, upd_info. change (info s4) with (info s3). rewrite Einf3, Ei0.
+    set (sF := set_info _ s4).
+    split.
+    + apply (InvS_children_del nd s (Some noinfo) HS (fun _ => eq_refl) sF);
+        [reflexivity|unfold sF; cbn; congruence|unfold sF; cbn; congruence|unfold sF; cbn; congruence|congruence|right; reflexivity].
+    + apply totals_split. change (children sF) with (ndel nd (children s)).
+      apply (totals_other_node s3 sF _ nd); auto.
+      intros p Hp. unfold sF. cbn. rewrite Einf3. apply nget_nset_other, Hp.
+  - change (info s4) with (info s3). rewrite Einf3, Ei0.
+    set (sF := set_info _ s4).
+    split.
+    + apply (InvS_children_del nd s None HS (fun E => match EN E with end) sF);
+        [reflexivity|unfold sF; cbn; congruence|unfold sF; cbn; congruence|unfold sF; cbn; congruence|congruence|left; reflexivity].
+    + apply totals_split. change (children sF) with (ndel nd (children s)).
+      apply (totals_other_node s3 sF _ nd); auto.
+      intros p Hp. unfold sF. cbn. rewrite Einf3. apply nget_ndel_other, Hp.
+Qed.
+
 End Inv.
